@@ -34,10 +34,28 @@ type valueRegistry struct {
 	byMD5 map[string]int
 	body  map[int][]byte
 	key   map[int]string
+	hdr   map[int]bool // uploads sent with the headers of headersFor
 }
 
 func newRegistry() *valueRegistry {
-	return &valueRegistry{byMD5: map[string]int{}, body: map[int][]byte{}, key: map[int]string{}}
+	return &valueRegistry{byMD5: map[string]int{}, body: map[int][]byte{}, key: map[int]string{}, hdr: map[int]bool{}}
+}
+
+// headersFor returns entity headers that name the upload: a read that returns the body of upload
+// id must return these with it (a copy takes them along with the body).
+func (v *valueRegistry) headersFor(id int) http.Header {
+	v.mu.Lock()
+	v.hdr[id] = true
+	v.mu.Unlock()
+	return drv.H("Content-Type", fmt.Sprintf("text/x-upload-%d", id), "x-amz-meta-upload", fmt.Sprint(id))
+}
+
+// headersOK: the response headers belong to upload id (uploads sent without headers are not judged).
+func (v *valueRegistry) headersOK(id int, h http.Header) bool {
+	v.mu.Lock()
+	marked := v.hdr[id]
+	v.mu.Unlock()
+	return !marked || (h.Get("X-Amz-Meta-Upload") == fmt.Sprint(id) && h.Get("Content-Type") == fmt.Sprintf("text/x-upload-%d", id))
 }
 
 // mint creates a new unique body for a key. Length depends on the id.
@@ -300,7 +318,7 @@ func (e *c07Env) doOp(cl *drv.TCPClient, client int, op, key, src string, big bo
 		id, body := e.reg.mint(key, big)
 		ev.Arg = id
 		ev.Call = e.now()
-		resp, err = cl.Do("PUT", e.tcp.URL(drv.ObjPath(b, key), ""), nil, bytes.NewReader(body), int64(len(body)))
+		resp, err = cl.Do("PUT", e.tcp.URL(drv.ObjPath(b, key), ""), e.reg.headersFor(id), bytes.NewReader(body), int64(len(body)))
 		ev.Ret = e.now()
 	case "get", "final-get":
 		ev.Call = e.now()
@@ -312,8 +330,8 @@ func (e *c07Env) doOp(cl *drv.TCPClient, client int, op, key, src string, big bo
 				ev.Obs = 0
 			case 200:
 				id, ok := e.reg.idOfBody(resp.Body)
-				if !ok {
-					ev.Obs = -2 // a body that nobody uploaded
+				if !ok || !e.reg.headersOK(id, resp.Header) {
+					ev.Obs = -2 // a body that nobody uploaded, or the body of one upload under the headers of another
 				} else {
 					ev.Obs = id
 				}
@@ -328,7 +346,7 @@ func (e *c07Env) doOp(cl *drv.TCPClient, client int, op, key, src string, big bo
 			case 404:
 				ev.Obs = 0
 			case 200:
-				if id, ok := e.reg.idOfETag(resp.ETag()); ok {
+				if id, ok := e.reg.idOfETag(resp.ETag()); ok && e.reg.headersOK(id, resp.Header) {
 					ev.Obs = id
 				} else {
 					ev.Obs = -2
@@ -515,7 +533,7 @@ func runRegisterHistory(e *c07Env, hi int, rngSeed int64) {
 			return
 		}
 		if ev.Obs == -2 {
-			r.Violation(sig("C07", backendClass(e.kind), "torn-or-foreign-body", ev.Op), fmt.Sprintf("%s history %d: %s %s returned a body/ETag that no client ever uploaded in full (mixture, truncation or mismatch)", e.kind, hi, ev.Op, ev.Key), wit())
+			r.Violation(sig("C07", backendClass(e.kind), "torn-or-foreign-body", ev.Op), fmt.Sprintf("%s history %d: %s %s returned a body/ETag that no client ever uploaded in full (mixture, truncation or mismatch), or the body of one upload under the Content-Type / metadata of another", e.kind, hi, ev.Op, ev.Key), wit())
 			return
 		}
 		for lk, lv := range ev.List {
@@ -1098,7 +1116,7 @@ func inProc(e *c07Env, client int, op, key, src string) hEvent {
 		id, body := e.reg.mint(key, false)
 		ev.Arg = id
 		ev.Call = e.now()
-		resp = e.s.Put(b, key, body, nil)
+		resp = e.s.Put(b, key, body, e.reg.headersFor(id))
 	case "getrange":
 		// a ranged read: the bytes are the requested slice of exactly one upload
 		resp = e.s.Do(&drv.Req{Method: "GET", Path: drv.ObjPath(b, key), Header: drv.H("Range", "bytes=7-")})
@@ -1138,7 +1156,7 @@ func inProc(e *c07Env, client int, op, key, src string) hEvent {
 		if resp.Status == 404 {
 			ev.Obs = 0
 		} else if resp.Status == 200 {
-			if id, ok := e.reg.idOfBody(resp.Body); ok {
+			if id, ok := e.reg.idOfBody(resp.Body); ok && e.reg.headersOK(id, resp.Header) {
 				ev.Obs = id
 			} else {
 				ev.Obs = -2
@@ -1152,7 +1170,7 @@ func inProc(e *c07Env, client int, op, key, src string) hEvent {
 		if resp.Status == 404 {
 			ev.Obs = 0
 		} else if resp.Status == 200 {
-			if id, ok := e.reg.idOfETag(resp.ETag()); ok {
+			if id, ok := e.reg.idOfETag(resp.ETag()); ok && e.reg.headersOK(id, resp.Header) {
 				ev.Obs = id
 			} else {
 				ev.Obs = -2
@@ -1294,7 +1312,7 @@ func runGatedPair(e *c07Env, aName, point, bName string, caseNo int) {
 			return
 		}
 		if ev.Obs == -2 {
-			r.Violation(sig("C07", backendClass(e.kind), "torn-or-foreign-body", aName+"@"+point+"|"+bName), fmt.Sprintf("%s: %s parked at %s while %s ran: a read returned a body/ETag/length that is not one upload", e.kind, aName, point, bName), wit())
+			r.Violation(sig("C07", backendClass(e.kind), "torn-or-foreign-body", aName+"@"+point+"|"+bName), fmt.Sprintf("%s: %s parked at %s while %s ran: a read returned a body/ETag/length/headers that are not one upload", e.kind, aName, point, bName), wit())
 			return
 		}
 		for k, v := range ev.List {
@@ -1381,7 +1399,7 @@ func runC07(c *Ctx) {
 	nhist := r.Pick(140, 3000)
 	rounds := r.Pick(8, 150)
 	nlife := r.Pick(100, 2500)
-	nmp := r.Pick(80, 2000)
+	nmp := r.Pick(200, 2000)
 	kinds := drv.AllKinds
 	r.Set("backends", kinds)
 	racePrefix := os.Getenv("VERIF_RACE_LOG")
